@@ -70,7 +70,7 @@ Inductive sty :=
 
 Definition sty_eqb (a b : sty) : bool :=
   match a, b with
-  | SBool, SBool | SInt, SInt | SBit, SBit | SChar, SChar | SUInt, SUInt => true
+  | SBool, SBool | SInt, SInt | SBit, SBit | SChar, SChar | SUInt, SUInt | SErr, SErr => true
   | SEnum u n _, SEnum u' n' _ | SIntT u n, SIntT u' n'
   | SRec u n _, SRec u' n' _ | SArr u n _ _, SArr u' n' _ _ => (u =? u') && (n =? n')
   | _, _ => false
@@ -918,7 +918,11 @@ Definition check_amap (chk : isig -> actual -> res unit) (unit_nid : nid) (fs : 
   | None =>
       (* positional after named, or more positional actuals than formals *)
       guard (forallb (fun a => match fst a with Some _ => true | None => false end) (skipn (positional_count m) m)
-             && (positional_count m <=? length fs)%nat) unit_nid Other ;;;
+             && (positional_count m <=? length fs)%nat
+             (* no formal associated both positionally and by name *)
+             && forallb (fun a => match fst a with
+                                  | Some o => negb (existsb (N.eqb (o_id o)) (firstn (positional_count m) (map is_name fs)))
+                                  | None => true end) m) unit_nid Other ;;;
       check_formals chk unit_nid m 0 fs
   end.
 
